@@ -124,7 +124,7 @@ def run(tier, seed, t0):
                 "and every pair is executed on the real code under the loop-progress hook. (ii) every method of Object / Spatial / "
                 "Collection (%d unary, %d binary) on every ordered pair of the %d objects of Gen_C05 (all kinds incl. degenerate "
                 "constructor outputs, circles with zero/negative/NaN/huge radius, 70-point degenerate series, 2^16 coordinates). "
-                "(iii) Parse on model-rendered texts, every (strided) prefix, single-byte damage, 0x00/0x01 prefixes, nesting to depth "
+                "(iii) Parse on model-rendered texts, every (strided) prefix, single-byte damage, every byte value 0..255 alone / in front of / behind / substituted and inserted at every position of two short documents, byte order marks, nesting to depth "
                 "10000, and the ~100 000 texts generated from the state graph of the JSON automaton (JsonLex / Gen_Lex: one text per "
                 "transition, legal or not, in whole-text, member and coordinate position) and the ~17 000 documents of Gen_Doc (incl. out-of-range coordinates, Circle features, large documents), under 4-5 "
                 "option sets; every object Parse returns is then put through every unary method. (iv) the segment indexes are built and "
@@ -135,6 +135,7 @@ def run(tier, seed, t0):
                     {"event": [e for e in events if e["op"] == "binary"][:1]}, {"event": [e for e in events if e["op"] == "parse"][5:6]}],
         "index_series_built": nseries, "index_panics": index_panics,
         "cases_by_kind": summ["by_kind"], "outcomes": summ["outcomes"], "worker_restarts": summ["worker_restarts"],
+        "sweep_stopped_at_case_after_60_crashes_or_timeouts": summ.get("sweep_stopped_at_case_after_60_crashes_or_timeouts", -1),
         "events_judged_by_tlc": len(events), "walk_model_drift": len(drift), "known_finding_hits": v.known_hits,
         "T6": {"termination_violated_on_model": bool(r6.violated), "states": r6.distinct},
     }
